@@ -264,6 +264,7 @@ class Witness(threading.Thread):
         self.problems = []
         self.idle_timeouts = 0
         self.slow_calls = 0
+        self.watchdog = 90.0
         self.connected = threading.Event()
 
     def run(self):
@@ -271,7 +272,7 @@ class Witness(threading.Thread):
         try:
             # (the client-side timeout is a watchdog, generous on purpose: the statement puts no bound on latency, and on a loaded machine
             # a correct reply can take many seconds; a reply that takes longer than 20 s is counted, one that never comes is the verdict)
-            p = self.fx.proxy("svc", serializer=self.sername, timeout=90.0)
+            p = self.fx.proxy("svc", serializer=self.sername, timeout=self.watchdog)
             p._pyroBind()
             self.connected.set()
             conn = p._pyroConnection
@@ -697,6 +698,10 @@ def run_config(P, cfg, rec, r, n_items):
         r.shuffle(wsers)
         witnesses = [Witness(fx, i, wsers[i]) for i in range(4 if cfg["pool"] > 5 else 2)]
         for w in witnesses:
+            # (the thorough tier usually runs on a machine that is busy with other tiers: there the watchdog is ten minutes, far beyond any
+            # processing time; the shard's own watchdog stands behind it)
+            w.watchdog = 90.0 if rec.tier == "quick" else 600.0
+        for w in witnesses:
             w.start()
         for w in witnesses:
             w.connected.wait(10)
@@ -768,7 +773,7 @@ def run_config(P, cfg, rec, r, n_items):
         for w in witnesses:
             w.stop.set()
         for w in witnesses:
-            w.join(100)
+            w.join(w.watchdog + 10)
         for w in witnesses:
             if w.problems:
                 rec.violation("witness-disturbed", "%s (cfg %s); last hostile items %r" % (w.problems[0], cfgkey, last), dict(pay, last=last))
